@@ -83,6 +83,25 @@ def float_case(ck, rng, crys, chem, sl, jn, d, with_gf):
         res["Dgf"] = g.D.tolist()
         # the accessor must agree as well
         res["errgf"] = max(res["errgf"], np.abs(g.Diffusivity() - Dex).max() / scale)
+        # history on the SAME Green-function calculator: (B) site energies shifted per Wyckoff set with the transition states
+        # in kinetically-resolved form E_T -> E_T + (dE_i + dE_j)/2, so that every symmetrised rate is unchanged while the
+        # site probabilities and escape rates change; (C) unrelated data; (A) again.  Each must give its own exact D.
+        dE = nr.uniform(-1, 1, len(sl))
+        bE_B = bE + dE
+        bET_B = np.array([bT + 0.5 * (dE[d.invmap[jl[0][0][0]]] + dE[d.invmap[jl[0][0][1]]]) for jl, bT in zip(jn, bET)])
+        pre_C = nr.uniform(0.5, 2, len(sl)); bE_C = nr.uniform(0, 2, len(sl)); preT_C = nr.uniform(0.5, 2, len(jn)); bET_C = nr.uniform(2, 4, len(jn))
+        for tag, (p_, e_, pT_, eT_) in (("B", (pre, bE_B, preT, bET_B)), ("C", (pre_C, bE_C, preT_C, bET_C)), ("A", (pre, bE, preT, bET))):
+            w_ = np.array([p_[d.invmap[i]] * np.exp(-e_[d.invmap[i]]) for i in range(d.N)])
+            r_ = [[pT * np.exp(-bT) / w_[i] for (i, j), dx in jl] for jl, pT, bT in zip(jn, pT_, eT_)]
+            Dx = gen.exact_unitcell_D(d.N, jn, w_ / w_.sum(), r_, crys.dim)
+            g.SetRates(p_, e_, pT_, eT_)
+            eh = np.abs(g.Diffusivity() - Dx).max() / max(np.abs(Dx).max(), 1e-300)
+            ei = np.abs(d.diffusivity(p_, e_, pT_, eT_) - Dx).max() / max(np.abs(Dx).max(), 1e-300)
+            res["errgf_hist"] = max(res.get("errgf_hist", 0.0), eh)
+            res["err"] = max(res["err"], ei)
+            if eh > 1e-9 and "hist_fail" not in res:
+                res["hist_fail"] = dict(step=tag, pre=np.asarray(p_).tolist(), bE=np.asarray(e_).tolist(), preT=np.asarray(pT_).tolist(),
+                                        bET=np.asarray(eT_).tolist(), Dgf=g.Diffusivity().tolist(), Dex=Dx.tolist())
     return res
 
 
@@ -124,6 +143,10 @@ def run(ck):
             if not (fc["errgf"] <= 1e-8):
                 ck.violation("GFCrystalcalc diffusivity differs from the exact corrector formula by %.3g (rel)" % fc["errgf"],
                              {"crystal": repr(crys), "chem": chem, "cutoff": cut, **fc}, key="c02-float-GFD")
+            if not (fc.get("errgf_hist", 0.0) <= 1e-8):
+                ck.violation("GFCrystalcalc re-used for another rate set (step %s of the history A, B = same symmetrised rates with other site "
+                             "energies, C, A) reports a diffusivity that differs from the exact one by %.3g (rel)" % (fc["hist_fail"]["step"], fc["errgf_hist"]),
+                             {"crystal": repr(crys), "chem": chem, "cutoff": cut, **fc}, key="c02-GFD-history")
     # run the Coq checker on the exact tier
     try:
         codes = netcase.run_cases(ck, "exact", [e["term"] for e in exact_cases])
